@@ -129,7 +129,11 @@ class Report:
                     'on the finite partition of inputs (representative '
                     'layouts / option combinations) stated in the rule text, '
                     'by an interpreter over the function\'s syntax tree with '
-                    'symbolic tokens for data and library results.'
+                    'symbolic tokens for data and library results (the '
+                    'repository code is never executed); such an obligation '
+                    'holds for the stated scenarios - every data set whose '
+                    'named quantities take the scenario values - not for '
+                    'every input.'
                     if any(r.startswith('R-INTERP') for r in self.rules)
                     else '')),
             'obligations': len(self.obs),
